@@ -194,7 +194,7 @@ fn run_inner(rng: &mut Rng, world: &World, k: u16, format: &str, dir: &str) -> C
         o.inconclusive("the network read back from the file admits different colours than the generated one");
         return o;
     }
-    let labels_pool = ["a_set", "attractors.v2", "formula-0", "erk.on", "erk.off", "p", "q_long_label_0123456789", "x.bdd"];
+    let labels_pool = ["a_set", "attractors.v2", "formula-0", "erk.on", "erk.off", "p", "q_long_label_0123456789", "x.bdd", "Target", "ERK_on", "P", "Set.BDD", "\u{3b2}_cells"];
     let mut labels_pool = labels_pool.to_vec();
     rng.shuffle(&mut labels_pool);
     // the first label is also used as a wild-card in a formula, it must be a plain identifier
